@@ -5,12 +5,14 @@ one verdict line per input line: `ok`, `DIFF …` (model ≠ implementation),
 `SPEC …` (implementation violates the spec), or `bad-op`.
 -/
 import SamVerif.Drive.C12
+import SamVerif.Drive.C10
 open SamVerif.Drive
 
 def dispatch (line : String) : String :=
   let (lhs, impl) := splitArrow line
   match words lhs with
   | "c12" :: args => C12.handle args impl
+  | k :: args => if k.startsWith "c10." then C10.handle k args impl else "bad-op"
   | _ => "bad-op"
 
 partial def loop (h : IO.FS.Stream) (out : IO.FS.Stream) : IO Unit := do
